@@ -1,0 +1,73 @@
+//go:build verif
+
+// Machine-checked contracts for package lexer (comment-only; read by /verif/bin/bornovc).
+package lexer
+
+// The 15 keywords of the language (README "Keywords" table, spellings as published).
+//@ spec isKeyword(k Str) Bool = k == "ফাংশন" || k == "ধরি" || k == "ফর" || k == "যদি" || k == "নাহয়" || k == "যতক্ষণ" || k == "সত্য" || k == "মিথ্যা" || k == "nil" || k == "দেখাও" || k == "ফেরত" || k == "থামো" || k == "চালিয়ে_যাও" || k == "এবং" || k == "বা"
+//@ spec keywordType(k Str) Int = ite(k == "ফাংশন", token.FUN, ite(k == "ধরি", token.VAR, ite(k == "ফর", token.FOR, ite(k == "যদি", token.IF, ite(k == "নাহয়", token.ELSE, ite(k == "যতক্ষণ", token.WHILE, ite(k == "সত্য", token.TRUE, ite(k == "মিথ্যা", token.FALSE, ite(k == "nil", token.NIL, ite(k == "দেখাও", token.PRINT, ite(k == "ফেরত", token.RETURN, ite(k == "থামো", token.BREAK, ite(k == "চালিয়ে_যাও", token.CONTINUE, ite(k == "এবং", token.LOGICAL_AND, ite(k == "বা", token.LOGICAL_OR, token.IDENTIFIER)))))))))))))))
+//@ globalinv keywords m: m != nil && forall(k, Str, has(m, k) == isKeyword(k)) && forall(k, Str, has(m, k) ==> m[k] == keywordType(k))
+
+// every token handed to the parser carries a canonical literal (C16)
+//@ cellinv E_S_token_Token t: canon(t.Literal)
+
+//@ func (s *Scanner) identifier [C09,C08,C18]
+//@ requires [scanner] s != nil && 0 <= s.start && s.start < s.current && s.current <= len(s.source)
+//@ requires [run] identEnd(s.source, s.start+1) == identEnd(s.source, s.current)
+//@ loop 1:
+//@   invariant [bounds] s.start < s.current && s.current <= len(s.source) && s.start == old(s.start) && s.line == old(s.line) && s.tokens == old(s.tokens) && s.source == old(s.source)
+//@   invariant [run] identEnd(s.source, s.start+1) == identEnd(s.source, s.current)
+//@   decreases len(s.source) - s.current
+//@ ensures [munch] s.current == identEnd(s.source, old(s.start)+1)
+//@ ensures [frame] s.start == old(s.start) && s.line == old(s.line) && s.source == old(s.source)
+//@ ensures [onetoken] len(s.tokens) == old(len(s.tokens))+1 && forall(k, 0, old(len(s.tokens)), s.tokens[k] == old(s.tokens[k]))
+//@ ensures [token] s.tokens[old(len(s.tokens))].Lexeme == text(s.source, s.start, s.current) && s.tokens[old(len(s.tokens))].Line == s.line && s.tokens[old(len(s.tokens))].Literal == nil
+//@ ensures [keyword] s.tokens[old(len(s.tokens))].Type == keywordType(text(s.source, s.start, s.current))
+//@ ensures [silent] utils.HadError == old(utils.HadError) && stderrN == old(stderrN)
+
+//@ func (s *Scanner) number [C09,C10,C08]
+//@ requires [scanner] s != nil && 0 <= s.start && s.start < s.current && s.current <= len(s.source)
+//@ requires [run] digitsEnd(s.source, s.start) == digitsEnd(s.source, s.current)
+//@ let d = digitsEnd(s.source, old(s.start))
+//@ loop 1:
+//@   invariant [bounds] s.start < s.current && s.current <= len(s.source) && s.start == old(s.start) && s.line == old(s.line) && s.tokens == old(s.tokens) && s.source == old(s.source)
+//@   invariant [run] digitsEnd(s.source, s.start) == digitsEnd(s.source, s.current)
+//@   decreases len(s.source) - s.current
+//@ loop 2:
+//@   invariant [bounds] d+1 <= s.current && s.current <= len(s.source) && s.start == old(s.start) && s.line == old(s.line) && s.tokens == old(s.tokens) && s.source == old(s.source)
+//@   invariant [point] d < len(s.source) && src(s.source, d) == 46 && d+1 < len(s.source) && isDigitSpec(src(s.source, d+1))
+//@   invariant [run] digitsEnd(s.source, d+1) == digitsEnd(s.source, s.current)
+//@   decreases len(s.source) - s.current
+//@ ensures [munch] s.current == numberEnd(s.source, old(s.start))
+//@ ensures [frame] s.start == old(s.start) && s.line == old(s.line) && s.source == old(s.source)
+//@ ensures [token] ext.parsefloat.ok(trStr(text(s.source, s.start, s.current))) ==> len(s.tokens) == old(len(s.tokens))+1 && forall(k, 0, old(len(s.tokens)), s.tokens[k] == old(s.tokens[k])) && s.tokens[old(len(s.tokens))].Type == token.NUMBER && s.tokens[old(len(s.tokens))].Lexeme == text(s.source, s.start, s.current) && s.tokens[old(len(s.tokens))].Line == s.line && s.tokens[old(len(s.tokens))].Literal == mkNum(ext.parsefloat.val(trStr(text(s.source, s.start, s.current)))) && utils.HadError == old(utils.HadError) && stderrN == old(stderrN)
+//@ ensures [range] !ext.parsefloat.ok(trStr(text(s.source, s.start, s.current))) ==> s.tokens == old(s.tokens) && utils.HadError && stderrN == old(stderrN)+1 && reportLine(stderr[old(stderrN)]) == s.line
+
+//@ func (s *Scanner) stringLiteral [C09,C08,C16]
+//@ requires [scanner] s != nil && 0 <= s.start && s.start+1 == s.current && s.current <= len(s.source)
+//@ let q = findCp(s.source, old(s.start)+1, 34)
+//@ loop 1:
+//@   invariant [bounds] s.start < s.current && s.current <= len(s.source) && s.start == old(s.start) && s.tokens == old(s.tokens) && s.source == old(s.source)
+//@   invariant [run] findCp(s.source, s.start+1, 34) == findCp(s.source, s.current, 34)
+//@   invariant [line] s.line == old(s.line) + nl(s.source, s.current) - nl(s.source, old(s.current))
+//@   decreases len(s.source) - s.current
+//@ ensures [munch] (q < len(s.source) ==> s.current == q+1) && (q >= len(s.source) ==> s.current == len(s.source))
+//@ ensures [line] s.line == old(s.line) + nl(s.source, s.current) - nl(s.source, old(s.current))
+//@ ensures [frame] s.start == old(s.start) && s.source == old(s.source)
+//@ ensures [token] q < len(s.source) ==> len(s.tokens) == old(len(s.tokens))+1 && forall(k, 0, old(len(s.tokens)), s.tokens[k] == old(s.tokens[k])) && s.tokens[old(len(s.tokens))].Type == token.STRING && s.tokens[old(len(s.tokens))].Lexeme == text(s.source, s.start, s.current) && s.tokens[old(len(s.tokens))].Line == s.line && s.tokens[old(len(s.tokens))].Literal == mkStr(text(s.source, s.start+1, q)) && utils.HadError == old(utils.HadError) && stderrN == old(stderrN)
+//@ ensures [unterminated] q >= len(s.source) ==> s.tokens == old(s.tokens) && utils.HadError && stderrN == old(stderrN)+1 && reportLine(stderr[old(stderrN)]) == s.line
+
+//@ func (s *Scanner) multilineComment [C09,C08]
+//@ requires [scanner] s != nil && 0 <= s.start && s.start+2 == s.current && s.current <= len(s.source)
+//@ let cq = findStarSlash(s.source, old(s.start)+2)
+//@ loop 1:
+//@   invariant [bounds] s.start+2 <= s.current && s.current <= len(s.source) && s.start == old(s.start) && s.tokens == old(s.tokens) && s.source == old(s.source)
+//@   invariant [run] findStarSlash(s.source, s.start+2) == findStarSlash(s.source, s.current)
+//@   invariant [line] s.line == old(s.line) + nl(s.source, s.current) - nl(s.source, old(s.current))
+//@   invariant [silent] utils.HadError == old(utils.HadError) && stderrN == old(stderrN)
+//@   decreases len(s.source) - s.current
+//@ ensures [munch] (cq < len(s.source) ==> s.current == cq+2) && (cq >= len(s.source) ==> s.current == len(s.source))
+//@ ensures [line] s.line == old(s.line) + nl(s.source, s.current) - nl(s.source, old(s.current))
+//@ ensures [frame] s.start == old(s.start) && s.source == old(s.source) && s.tokens == old(s.tokens)
+//@ ensures [closed] cq < len(s.source) ==> utils.HadError == old(utils.HadError) && stderrN == old(stderrN)
+//@ ensures [unterminated] cq >= len(s.source) ==> utils.HadError && stderrN == old(stderrN)+1 && reportLine(stderr[old(stderrN)]) == s.line
